@@ -74,6 +74,16 @@ def _wrap_scan():
                 valid = owner and not monitors_trace.entry_point_invalid_reasons(a) and os.path.isdir(str(a["root_path"])) and os.path.isdir(str(a["module_path"]))
             except Exception:  # noqa: BLE001
                 valid = False
+            if valid:
+                try:
+                    rscan.model(str(a["root_path"]), str(a["module_path"]), a["_globs"], a["_regexes"])
+                except (SyntaxError, ValueError) as e2:
+                    # the reference scanner cannot read the tree either: the DRIVER wrote an illegal source file -
+                    # that is a defect of the workload, never a verdict about the library
+                    valid = False
+                    HUB.acc.mark_inconclusive(f"a workload wrote a source file that is not legal Python: {type(e2).__name__}: {e2}")
+                except Exception:  # noqa: BLE001
+                    pass
             if valid and not getattr(HUB, "scan_crash_expected", False):
                 # a well-formed request on a legal tree yields an architecture; raising is a failed scan, recorded before
                 # the exception travels on (the driving shard may die of it and is then reported as crashed as well)
